@@ -121,11 +121,11 @@ def strat_history():
 def strat_for(kind):
     def build():
         return st.builds(
-            lambda a, dev_id, key, sess, ts, ll, salt: {"kind": kind, "args": a, "device_id": dev_id, "key": key,
-                                                        "session": sess, "ts": ts, "login_len": ll, "salt": salt},
+            lambda a, dev_id, key, sess, ts, ll, salt, z: {"kind": kind, "args": a, "device_id": dev_id, "key": key,
+                                                           "session": sess, "ts": ts, "login_len": ll, "salt": salt, "zone": z},
             gen.op_args(kind).map(_resolvable), gen.device_ids, gen.keys_int, gen.sessions,
             gen.timestamps if kind == "create_schedule" else gen.timestamps_wide, gen.login_lens,
-            st.integers(1, 200),
+            st.integers(1, 200), st.sampled_from(["UTC", "UTC", "UTC", "Asia/Jerusalem", "America/New_York", "Asia/Kathmandu"]),
         )
     return build
 
